@@ -244,3 +244,8 @@ RULES = [
     Rule("C17.Z4", rule_Z4, floor=1, doc="pixel extension"),
     Rule("C17.Z5", rule_Z5, floor=6, doc="post-processing, item and batch plumbing"),
 ]
+
+from sa import dims as _dims  # noqa: E402
+
+RULES.append(Rule("C17.AX", _dims.make_rule("C17", "C17.AX"), floor=1,
+                  doc="axis-extent agreement: coordinate components are bounded by the extent of their own axis (E13)"))
